@@ -793,6 +793,27 @@ impl<'a> World<'a> {
                 self.stats.probe("byte-corrupted");
                 Ok(())
             }
+            Step::Truncate { m, kind, len } => {
+                self.close_all()?;
+                let m = *m as usize;
+                if m >= self.maps.len() {
+                    return Ok(());
+                }
+                for (i, p) in self.file_paths(m).iter().enumerate() {
+                    if *kind as usize == i || *kind >= 3 {
+                        kernel::with(|k| {
+                            if let Some(f) = k.file_mut(p) {
+                                if f.written.len > *len {
+                                    f.written.set_len(*len);
+                                    f.durable = f.written.clone();
+                                }
+                            }
+                        });
+                    }
+                }
+                self.stats.probe("file-truncated");
+                Ok(())
+            }
             Step::SwapFile { m, m2, kind } => {
                 self.close_all()?;
                 let (m, m2) = (*m as usize, *m2 as usize);
